@@ -94,7 +94,7 @@ Print Assumptions C16_checker_sound.
    five queries are answered (none raised), two answers are reconstructions (one from the other
    thread's cache entry after an unimproved re-search), and every answer is the asker's. *)
 Example C16_nonvacuous :
-  let cfg := mkC MReusable OwImproved false 1 in
+  let cfg := mkC MReusable OwImproved false 1 false in
   let orc := mkO (fun q => q) (fun _ => true)
                  (fun q o k => Some (Z.of_nat (q + 2 * o + k)))
                  (fun _ _ _ => false) (fun t => match t with TSearch q o k => Some (Z.of_nat o) | _ => None end) in
